@@ -372,3 +372,91 @@ def c10(res):
                    "(mixed allowed/disallowed declarations, vendor prefixes incl. stacked, upper case, numeric and character escapes, !important, comments, malformed tails) x rule sets in "
                    "all three scopes with handler / enum / regexp / default matchers; non-trivial = style strings of which something is kept",
                    thorough_runs=[("corr-style", ["style", "-n", "3000"]), FN, ATTRS_T("general")])
+
+
+@check("C06")
+def c06(res):
+    return generic(res, "C06", "Properties/C06.v", [TOK(10, 80), SAN(50, 50), LOOP, FN], "C06",
+                   "the text branch of the token loop, html escape/unescape and the tokenizer model", RULE_LOOP +
+                   "; text-heavy fragments: named and numeric references incl. the Windows-1252 range, surrogates and int32 overflow, bare & and <, CR/LF forms, NUL, non-BMP, invalid UTF-8, RCDATA/RAWTEXT bodies",
+                   thorough_runs=[TOK(60, 300), SAN(300, 100), LOOP_T, FN])
+
+
+@check("C07")
+def c07(res):
+    return generic(res, "C07", "Properties/C07.v", [ATTRS("general"), SAN(40, 40), LOOP], "C07",
+                   "the rule lookups of sanitizeAttrs and the write-back of kept tokens", RULE_ATTRS +
+                   "; oracle: canonical serialisations of random trees in the policy's own vocabulary must come back byte for byte, also after further rule-adding builder calls",
+                   thorough_runs=[ATTRS_T("general"), SAN(200, 80), LOOP_T])
+
+
+@check("C09")
+def c09(res):
+    return generic(res, "C09", "Properties/C09.v", [LOOP, SAN(50, 50)], "C09",
+                   "the closing-tag stack of the token loop", RULE_LOOP + "; oracle: stack balance of the re-tokenised output on generated well-nested trees "
+                   "(void elements, same-name nesting of kept and dropped elements, elements dropped for lack of attributes, skipped regions)",
+                   thorough_runs=[LOOP_T, SAN(300, 100)])
+
+
+@check("C20")
+def c20(res):
+    return generic(res, "C20", "Properties/C20.v", [SAN(50, 50), ATTRS("link"), TOK(10, 60)], "C20",
+                   "escape/unescape, the rel additions and the URL normal form", RULE_LOOP + "; oracle: Sanitize(Sanitize(x)) = Sanitize(x) on every generated case of the stated policy class",
+                   thorough_runs=[SAN(300, 100), ATTRS_T("link"), TOK(40, 200)])
+
+
+@check("C17")
+def c17(res):
+    return generic(res, "C17", "Properties/C17.v", [("corr-dump", ["dump", "-n", "60"])], None,
+                   "the builder methods of policy.go and helpers.go",
+                   "theorems over Builder.apply (rules accumulate, switches take their last setting); tie: interleaved builder histories on 2-3 policies with every table of every "
+                   "policy compared with the model after every call (VerifDumpPolicy); oracle: outputs of a policy, of the same history with the rule-adding calls shuffled, and with "
+                   "all names upper-cased must agree, shipped constructors return independent values; non-trivial = distinct policy states / outputs",
+                   thorough_runs=[("corr-dump", ["dump", "-n", "400"])],
+                   extra_oracles=[("oracle-c17", ["c17"])])
+
+
+@check("C14")
+def c14(res):
+    return generic(res, "C14", "Properties/C14.v", [LOOP, SAN(40, 40)], None,
+                   "the closing-tag stack indexing, isDataAttribute, removeUnicode and recursiveCheck",
+                   "theorems: no panic state reachable, all model functions total; tie: every correspondence case runs the implementation under recover(); oracle: size-parameterised "
+                   "adversarial families (n = 8..48 repetitions of 14 tokens in 28 shorthand CSS properties, 20000-deep nesting, 20000 attributes, long escape chains) under a wall-clock "
+                   "budget of 3 s per short input, and panic hunting over mutated documents on all entry points",
+                   thorough_runs=[LOOP_T, SAN(300, 100)],
+                   extra_oracles=[("oracle-c14", ["c14"])])
+
+
+@check("C13")
+def c13(res):
+    # the stress run is built with the race detector; a race report makes the process exit non-zero
+    race = os.path.join(V.BIN, "harness_race")
+    rc, out, _ = V.run(["go", "build", "-race", "-tags", "verif", "-o", race, "./cmd/harness"], cwd=os.path.join(V.ROOT, "go"), env=V.GOENV, timeout=900)
+    if rc != 0:
+        raise Broken("cannot build the race-detector harness:\n" + out[-2000:])
+    st = V.prepare(res, need_driver=False)
+    broken_tooling(res, st, "nothing generated")
+    ok, out = V.prove(res, "Properties/C13.v")
+    thorough = res.tier == "thorough"
+    rc, out2, dt = V.run([race, "c13", "-seed", str(res.seed)] + (["-policies", "60", "-docs", "120"] if thorough else []), env=dict(V.GOENV, GORACE="halt_on_error=1 exitcode=66"), timeout=1500)
+    lines = [l for l in out2.split("\n") if l.startswith("{")]
+    res.coverage["rule"] = ("theorems: rule order irrelevant, no dependence on earlier calls (the model is a function); validation (not proof): race-detector build, 16 goroutines sharing each "
+                            "finished policy over generated documents compared with sequential results, repeated sequential passes, freshly built equal policies (map order), policy dump before/after")
+    if "DATA RACE" in out2 or rc == 66:
+        res.violation({"kind": "data-race", "clause": "the race detector reported a data race while goroutines shared a finished policy", "race_log": out2[-6000:]}, found=True)
+    elif rc != 0 or not lines:
+        raise Broken("race harness failed rc=%s:\n%s" % (rc, out2[-2000:]))
+    if lines:
+        s = json.loads(lines[-1])
+        merge_cov(res, s, "race-stress")
+        seen = set()
+        for f in (s.get("oracle_failures") or []):
+            k = f.get("clause", "")[:40]
+            if k not in seen:
+                seen.add(k)
+                report_case(res, "C13", trim_case(f), found=True)
+    if not ok and not res.violations:
+        res.violation({"kind": "proof-obligation-failed", "broken": "Properties/C13.v no longer compiles", "detail": out[-2000:]}, found=False)
+    if thorough and ok:
+        V.coqchk(res, "Properties/C13.v")
+    return res.finish("proof")
